@@ -40,3 +40,25 @@ func DumpInputForVerif(nc network.Conn) string {
 	}
 	return fmt.Sprintf("len=%d max=%d r=%d err=%d %s", c.inputBuffer.len, c.maxSize, r, e, strings.Join(nodes, ","))
 }
+
+// DumpOutputForVerif renders the output side of a Conn: the room left in the write node
+// (outputBuffer.len) and capacity:malloc:off:readOnly of every node from head to write.
+// Verification hook (build tag verif): read-only.
+func DumpOutputForVerif(nc network.Conn) string {
+	c, ok := nc.(*Conn)
+	if !ok {
+		return "not a standard.Conn"
+	}
+	var nodes []string
+	for n := c.outputBuffer.head; n != nil; n = n.next {
+		ro := 0
+		if n.readOnly {
+			ro = 1
+		}
+		nodes = append(nodes, fmt.Sprintf("%d:%d:%d:%d", cap(n.buf), n.malloc, n.off, ro))
+		if n == c.outputBuffer.write {
+			break
+		}
+	}
+	return fmt.Sprintf("left=%d %s", c.outputBuffer.len, strings.Join(nodes, ","))
+}
